@@ -1,18 +1,27 @@
 package main
 
 // G6/G7 for the sender (C13): the constants the model is parameterised by and
-// the critical-section facts behind the model's event granularity, extracted
-// from package spine with go/ast. The extraction is STRUCTURAL: the whole
-// package is read (a method may live in any file), and everything unexported
-// is found by what it is, not by what it is called —
-//   the counter field      = the Sender field that is the operand of an atomic add
-//   the counter method     = the Sender method holding that atomic add
-//   the send method        = the Sender method calling WriteShipMessageWithPayload
-//   the request cache      = the Sender field of map type keyed by the message counter
-//   the request lock       = the mutex field locked by the first statement of Request
-// Exported names (Sender, NewSender, Request, the api.SenderInterface methods)
-// are the anchors. An anchor that disappears is reported as a fact with value
-// 0/false plus a note, never silently.
+// the facts behind the model's event granularity and family member
+// (Spine.Snd: Request = reqBegin [lock, lookup, draw, write] ; reqEnd [insert,
+// unlock], the response path in between), extracted from package spine.
+//
+// The facts are SEMANTIC: every exported method of the Sender is run through
+// the abstract interpreter of absint.go (helpers of the package inlined in
+// whatever file they live, deferred calls run at the end of their frame,
+// undecidable branches explored on both sides) and the facts are read off the
+// linear trace of events: mutex operations with the set of mutexes held,
+// atomic adds on a receiver field, the call that hands bytes to the connection
+// (any call of a method named WriteShipMessageWithPayload), loads / stores /
+// deletes of receiver fields of map type, calls on receiver fields. Everything
+// unexported is found by what it is, not by what it is called —
+//   the request mutex  = the mutex field Request acquires first (write lock, unconditionally)
+//   the request cache  = the Sender field of map type keyed by the message counter type
+//   the cache lock     = the mutex field (other than the request mutex) held at the accesses to the request cache
+//   the counter field  = the operand of the atomic add (or, failing that, the integer field the methods store to)
+//   the notify cache   = a receiver field whose type mentions lrucache
+// Exported names (Sender, NewSender, the api.SenderInterface methods) are the
+// anchors. A fact that cannot be established is emitted as false / 0 with a
+// note, never silently.
 
 import (
 	"fmt"
@@ -177,31 +186,183 @@ func genSender(outDir string) (string, error) {
 	if err != nil {
 		return "", err
 	}
+	pkg, err := loadPkg(filepath.Join(RepoDir(), "spine"), "verif_hooks")
+	if err != nil {
+		return "", err
+	}
 	consts := pkgIntConsts(files)
 	fields := structFields(files, "Sender")
 	var notes []string
-	// every Sender method of the package, by name
-	methods := map[string]*ast.FuncDecl{}
-	var newSender *ast.FuncDecl
-	for _, f := range files {
-		for _, d := range f.Decls {
-			if fd, ok := d.(*ast.FuncDecl); ok && fd.Body != nil {
-				if recvTypeName(fd) == "Sender" {
-					methods[fd.Name.Name] = fd
+	seenNote := map[string]bool{}
+	note := func(format string, a ...any) {
+		n := fmt.Sprintf(format, a...)
+		if !seenNote[n] {
+			seenNote[n] = true
+			notes = append(notes, n)
+		}
+	}
+	has := func(l []string, x string) bool {
+		for _, y := range l {
+			if x == y {
+				return true
+			}
+		}
+		return false
+	}
+
+	// ---- the fields of the Sender, by type ------------------------------------------------------------
+	var fieldNames []string
+	for f := range fields {
+		fieldNames = append(fieldNames, f)
+	}
+	sort.Strings(fieldNames)
+	mutexes := map[string]bool{}
+	cfg := &trackCfg{maps: map[string]bool{}, ints: map[string]bool{}, atomics: map[string]bool{}, writeMethod: "WriteShipMessageWithPayload"}
+	lru := map[string]bool{}
+	cacheField := ""
+	for _, f := range fieldNames {
+		t := fields[f]
+		switch {
+		case t == "sync.Mutex" || t == "sync.RWMutex":
+			mutexes[f] = true
+		case strings.HasPrefix(t, "map["):
+			cfg.maps[f] = true
+			if strings.HasPrefix(t, "map[model.MsgCounterType]") {
+				if cacheField != "" {
+					note("more than one map field keyed by the message counter: %s, %s", cacheField, f)
+				} else {
+					cacheField = f
 				}
-				if fd.Recv == nil && fd.Name.Name == "NewSender" {
-					newSender = fd
+			}
+		case strings.HasPrefix(t, "atomic."):
+			cfg.atomics[f] = true
+		case isBasicType(t) && t != "string" && t != "bool" && t != "float64":
+			cfg.ints[f] = true
+		case strings.Contains(t, "lrucache"):
+			lru[f] = true
+		}
+	}
+	if cacheField == "" {
+		note("no Sender field of map type keyed by model.MsgCounterType (the request cache)")
+	}
+
+	// ---- the methods of the Sender and their traces ------------------------------------------------------
+	methods := map[string]*ast.FuncDecl{}
+	var names []string
+	for key, fd := range pkg.funcs {
+		if strings.HasPrefix(key, "Sender.") {
+			methods[fd.Name.Name] = fd
+			names = append(names, fd.Name.Name)
+		}
+	}
+	sort.Strings(names)
+	newSender := pkg.funcs["NewSender"]
+	trace := func(name string) *interp {
+		in := newInterp(pkg, mutexes, "", 0)
+		in.track = cfg
+		if !in.run("Sender", name, nil) {
+			return nil
+		}
+		return in
+	}
+	// entry points: the exported methods, plus unexported ones no exported method reaches (helpers are seen inlined,
+	// with the locks their callers hold)
+	traces := map[string]*interp{}
+	var entries []string
+	reached := map[string]bool{}
+	for _, n := range names {
+		if ast.IsExported(n) {
+			in := trace(n)
+			traces[n] = in
+			entries = append(entries, n)
+			for _, e := range in.ev {
+				if e.kind == "inline" {
+					reached[e.name] = true
 				}
 			}
 		}
 	}
-	var names []string
-	for name := range methods {
-		names = append(names, name)
+	for _, n := range names {
+		if !ast.IsExported(n) && !reached[n] {
+			traces[n] = trace(n)
+			entries = append(entries, n)
+		}
 	}
-	sort.Strings(names)
-	// sel reports whether e is <receiver of fd>.<field>
+	sort.Strings(entries)
+	isLock := func(e aevent) bool { return e.kind == "lock" || e.kind == "exitlock" }
+	isCacheAcc := func(e aevent) bool {
+		return cacheField != "" && e.name == cacheField && (e.kind == "mapread" || e.kind == "mapstore" || e.kind == "mapdelete")
+	}
+	// dominates: a is executed (before or after) on every path that executes b
+	dominates := func(a, b aevent) bool { return pathPrefix(a.path, b.path) && !(a.cond && len(a.path) == 0) && !a.async }
+	// the write of a trace: its position if the trace hands bytes to the connection exactly once, synchronously
+	writesOf := func(in *interp) (idx []int) {
+		for i, e := range in.ev {
+			if e.kind == "connwrite" {
+				idx = append(idx, i)
+			}
+		}
+		return
+	}
+
+	// ---- the counter: the field that is drawn from, atomically or not -------------------------------------
+	drawFields := map[string]int{}
+	atomicAdds := 0
+	for _, n := range entries {
+		for _, e := range traces[n].ev {
+			if e.kind == "atomicadd" {
+				drawFields[e.name]++
+				atomicAdds++
+			}
+		}
+	}
+	if len(drawFields) == 0 { // no atomic add at all: the integer field the methods store to
+		for _, n := range entries {
+			for _, e := range traces[n].ev {
+				if e.kind == "fieldstore" {
+					drawFields[e.name]++
+				}
+			}
+		}
+	}
+	counterField := ""
+	for f := range drawFields {
+		if counterField == "" || f < counterField {
+			counterField = f
+		}
+	}
+	isDraw := func(e aevent) bool {
+		return counterField != "" && e.name == counterField && (e.kind == "atomicadd" || e.kind == "fieldstore")
+	}
+	counterAtomic := false
+	switch {
+	case len(drawFields) == 0:
+		note("no atomic add on (and no store to) an integer field of the Sender found in its methods: no counter field")
+	case len(drawFields) > 1:
+		note("%d different Sender fields are incremented in the Sender's methods (want one counter field)", len(drawFields))
+	case atomicAdds == 0:
+		note("the counter field %s is never the operand of an atomic add", counterField)
+	default:
+		counterAtomic = true
+		for _, n := range entries {
+			for _, e := range traces[n].ev {
+				if (e.kind == "fieldload" || e.kind == "fieldstore") && e.name == counterField {
+					counterAtomic = false
+					note("%s: the counter field %s is accessed other than by an atomic operation (%s)", n, counterField, e.kind)
+				}
+			}
+		}
+	}
+
+	// ---- constants: limit of the request cache, capacity of the notify cache -----------------------------
 	sel := func(fd *ast.FuncDecl, e ast.Expr, field string) bool {
+		for {
+			p, ok := e.(*ast.ParenExpr)
+			if !ok {
+				break
+			}
+			e = p.X
+		}
 		s, ok := e.(*ast.SelectorExpr)
 		if !ok {
 			return false
@@ -209,95 +370,27 @@ func genSender(outDir string) (string, error) {
 		id, ok := s.X.(*ast.Ident)
 		return ok && id.Name == recvVarName(fd) && s.Sel.Name == field
 	}
-
-	// --- the counter: field, method, atomicity --------------------------------------------------
-	counterField, counterMethod := "", ""
-	atomicAdds := 0
-	for _, name := range names {
-		fd := methods[name]
-		ast.Inspect(fd, func(n ast.Node) bool {
-			c, ok := n.(*ast.CallExpr)
-			if !ok {
-				return true
-			}
-			// atomic.AddUint64(&recv.F, 1)
-			if exprString(c.Fun) == "atomic.AddUint64" && len(c.Args) == 2 {
-				if u, ok := c.Args[0].(*ast.UnaryExpr); ok && u.Op == token.AND {
-					if s, ok := u.X.(*ast.SelectorExpr); ok && sel(fd, s, s.Sel.Name) && fields[s.Sel.Name] == "uint64" {
-						counterField, counterMethod = s.Sel.Name, name
-						atomicAdds++
-					}
-				}
-			}
-			// recv.F.Add(1) with F of type atomic.Uint64
-			if s, ok := c.Fun.(*ast.SelectorExpr); ok && s.Sel.Name == "Add" && len(c.Args) == 1 {
-				if in, ok := s.X.(*ast.SelectorExpr); ok && sel(fd, in, in.Sel.Name) && fields[in.Sel.Name] == "atomic.Uint64" {
-					counterField, counterMethod = in.Sel.Name, name
-					atomicAdds++
-				}
-			}
-			return true
-		})
-	}
-	counterAtomic := false
-	if atomicAdds == 1 {
-		// the counter field is mentioned nowhere else in the package's Sender methods
-		mentions := 0
-		for _, name := range names {
-			fd := methods[name]
-			ast.Inspect(fd, func(n ast.Node) bool {
-				if s, ok := n.(*ast.SelectorExpr); ok && sel(fd, s, counterField) {
-					mentions++
-				}
-				return true
-			})
-		}
-		counterAtomic = mentions == 1
-		if !counterAtomic {
-			notes = append(notes, fmt.Sprintf("counter field %s is mentioned %d times in the Sender's methods", counterField, mentions))
-		}
-	} else {
-		notes = append(notes, fmt.Sprintf("%d atomic adds on a Sender field found (want exactly one)", atomicAdds))
-	}
-
-	// --- the send method: the one that hands bytes to the connection ------------------------------
-	sendMethod := ""
-	for _, name := range names {
-		ast.Inspect(methods[name], func(n ast.Node) bool {
-			if c, ok := n.(*ast.CallExpr); ok {
-				if s, ok := c.Fun.(*ast.SelectorExpr); ok && s.Sel.Name == "WriteShipMessageWithPayload" {
-					if sendMethod != "" && sendMethod != name {
-						notes = append(notes, "more than one Sender method writes to the connection: "+sendMethod+", "+name)
-					}
-					sendMethod = name
-				}
-			}
-			return true
-		})
-	}
-	if sendMethod == "" {
-		notes = append(notes, "no Sender method calls WriteShipMessageWithPayload")
-	}
-
-	// --- the request cache: map field keyed by the counter, its limit ----------------------------
-	cacheField := ""
-	for f, t := range fields {
-		if strings.HasPrefix(t, "map[model.MsgCounterType]") {
-			if cacheField != "" {
-				notes = append(notes, "more than one map field keyed by the message counter")
-			}
-			cacheField = f
-		}
-	}
 	limit, cap := 0, 0
 	for _, name := range names {
 		fd := methods[name]
 		ast.Inspect(fd, func(n ast.Node) bool {
-			if be, ok := n.(*ast.BinaryExpr); ok && (be.Op == token.GTR || be.Op == token.GEQ) {
-				if c, ok := be.X.(*ast.CallExpr); ok && exprString(c.Fun) == "len" && len(c.Args) == 1 && cacheField != "" && sel(fd, c.Args[0], cacheField) {
+			if be, ok := n.(*ast.BinaryExpr); ok && cacheField != "" {
+				lenOf := func(e ast.Expr) bool {
+					c, ok := e.(*ast.CallExpr)
+					return ok && exprString(c.Fun) == "len" && len(c.Args) == 1 && sel(fd, c.Args[0], cacheField)
+				}
+				switch {
+				case (be.Op == token.GTR || be.Op == token.GEQ) && lenOf(be.X): // len(cache) > N, len(cache) >= N+1
 					if v, ok := intOf(be.Y, consts); ok {
 						limit = v
 						if be.Op == token.GEQ {
+							limit = v - 1
+						}
+					}
+				case (be.Op == token.LSS || be.Op == token.LEQ) && lenOf(be.Y): // N < len(cache), N+1 <= len(cache)
+					if v, ok := intOf(be.X, consts); ok {
+						limit = v
+						if be.Op == token.LEQ {
 							limit = v - 1
 						}
 					}
@@ -307,9 +400,8 @@ func genSender(outDir string) (string, error) {
 		})
 	}
 	if limit == 0 {
-		notes = append(notes, "anchor `len(<request cache>) > N` not found in the Sender's methods")
+		note("anchor `len(<request cache>) > N` not found in the Sender's methods")
 	}
-	// notify cache capacity: lrucache.New[...](N, 0) in NewSender
 	if newSender != nil {
 		ast.Inspect(newSender, func(n ast.Node) bool {
 			if c, ok := n.(*ast.CallExpr); ok && exprString(c.Fun) == "lrucache.New" && len(c.Args) >= 1 {
@@ -321,87 +413,280 @@ func genSender(outDir string) (string, error) {
 		})
 	}
 	if cap == 0 {
-		notes = append(notes, "anchor `lrucache.New[…](N, …)` not found in NewSender")
+		note("anchor `lrucache.New[…](N, …)` not found in NewSender")
 	}
 
-	// --- Request is one critical section: its first two statements lock a mutex field and defer its unlock --
+	// ---- Request: one region under the request mutex ---------------------------------------------------------
+	reqMu := ""
 	requestOneRegion := false
-	if fd := methods["Request"]; fd != nil && len(fd.Body.List) >= 2 {
-		s0, ok0 := fd.Body.List[0].(*ast.ExprStmt)
-		s1, ok1 := fd.Body.List[1].(*ast.DeferStmt)
-		if ok0 && ok1 {
-			if c0, ok := s0.X.(*ast.CallExpr); ok {
-				l, okl := c0.Fun.(*ast.SelectorExpr)
-				u, oku := s1.Call.Fun.(*ast.SelectorExpr)
-				if okl && oku && l.Sel.Name == "Lock" && u.Sel.Name == "Unlock" && exprString(l.X) == exprString(u.X) {
-					if m, ok := l.X.(*ast.SelectorExpr); ok && sel(fd, m, m.Sel.Name) && fields[m.Sel.Name] == "sync.Mutex" {
-						requestOneRegion = true
-					}
+	req := traces["Request"]
+	if req == nil {
+		note("method Sender.Request not found")
+	} else {
+		for _, e := range req.ev {
+			if isLock(e) {
+				if e.kind == "lock" && e.op == "Lock" && !e.cond && !e.async {
+					reqMu = e.name
 				}
+				break
 			}
 		}
-	}
-	if !requestOneRegion {
-		notes = append(notes, "Request does not start with <mutex field>.Lock(); defer <same>.Unlock()")
-	}
-
-	// --- every exported way of sending draws its counter exactly once per datagram handed to the connection:
-	// call sites of the counter method and of the send method are counted through the calls among the Sender's
-	// own methods (a datagram built in an extracted helper counts for its callers)
-	var count func(name, target string, seen map[string]bool) int
-	count = func(name, target string, seen map[string]bool) int {
-		fd := methods[name]
-		if fd == nil || seen[name] {
-			return 0
-		}
-		seen[name] = true
-		defer delete(seen, name)
-		n := 0
-		ast.Inspect(fd, func(x ast.Node) bool {
-			if c, ok := x.(*ast.CallExpr); ok {
-				if s, ok := c.Fun.(*ast.SelectorExpr); ok {
-					if id, ok := s.X.(*ast.Ident); ok && id.Name == recvVarName(fd) {
-						if s.Sel.Name == target {
-							n++
-						} else if s.Sel.Name != counterMethod && s.Sel.Name != sendMethod {
-							n += count(s.Sel.Name, target, seen)
+		if reqMu == "" {
+			note("Request: the first lock operation is not an unconditional write lock of a mutex field of the Sender (no request mutex)")
+		} else {
+			ok := true
+			var mainSeq []string
+			acquires := 0
+			for _, e := range req.ev {
+				if isLock(e) && e.name == reqMu {
+					if e.op == "Lock" || e.op == "RLock" {
+						acquires++
+					}
+					if e.kind == "lock" {
+						mainSeq = append(mainSeq, e.op)
+						if e.cond {
+							ok = false
+							note("Request: a lock operation on the request mutex lies on a conditional path (%s)", e.op)
 						}
 					}
 				}
+				if (e.kind == "leak" || e.kind == "overrelease") && e.name == reqMu {
+					ok = false
+					note("Request: an exit path does not release the request mutex exactly once (%s)", e.kind)
+				}
 			}
-			return true
-		})
-		return n
+			if acquires != 1 || strings.Join(mainSeq, ",") != "Lock,Unlock" {
+				ok = false
+				note("Request: the request mutex is acquired %d times; lock operations of the main path: %v (want Lock, Unlock)", acquires, mainSeq)
+			}
+			if req.held[reqMu] != 0 {
+				ok = false
+				note("Request: the request mutex is not released when the method ends")
+			}
+			inside := 0
+			for _, e := range req.ev {
+				if isCacheAcc(e) || isDraw(e) || e.kind == "connwrite" {
+					inside++
+					if !has(e.held, reqMu) || e.async {
+						ok = false
+						note("Request: %s happens outside the request mutex", e.kind)
+					}
+				}
+			}
+			if len(writesOf(req)) == 0 {
+				ok = false
+				note("Request never reaches a call of WriteShipMessageWithPayload")
+			}
+			requestOneRegion = ok
+		}
 	}
-	oneDraw := counterMethod != "" && sendMethod != ""
+
+	// ---- the cache lock: the mutex (not the request mutex) held at the accesses to the request cache ----------
+	votes := map[string]int{}
+	accesses := 0
+	for _, n := range entries {
+		for _, e := range traces[n].ev {
+			if isCacheAcc(e) {
+				accesses++
+				for _, m := range e.held {
+					if m != reqMu {
+						votes[m]++
+					}
+				}
+			}
+		}
+	}
+	cacheLock := ""
+	for m, v := range votes {
+		if cacheLock == "" || v > votes[cacheLock] || v == votes[cacheLock] && m < cacheLock {
+			cacheLock = m
+		}
+	}
+	cacheAccessUnderCacheLock := false
+	switch {
+	case cacheField == "":
+	case accesses == 0:
+		note("the request cache %s is never accessed in the Sender's methods", cacheField)
+	case cacheLock == "":
+		note("no mutex field of the Sender (other than the request mutex) is held at any access to the request cache")
+	default:
+		cacheAccessUnderCacheLock = true
+		for _, n := range entries {
+			for _, e := range traces[n].ev {
+				if !isCacheAcc(e) {
+					continue
+				}
+				if !has(e.held, cacheLock) || e.async {
+					cacheAccessUnderCacheLock = false
+					note("%s: %s of the request cache without the cache lock (held: %v)", n, e.kind, e.held)
+				} else if e.kind != "mapread" && !has(e.heldW, cacheLock) {
+					cacheAccessUnderCacheLock = false
+					note("%s: %s of the request cache under a read lock only", n, e.kind)
+				}
+			}
+		}
+	}
+
+	// ---- Request: remember before or after the write; the write outside the cache lock -----------------------------
+	before, after, writeOutsideCacheLock := false, false, false
+	if req != nil {
+		ws := writesOf(req)
+		var ss []int
+		for i, e := range req.ev {
+			if e.kind == "mapstore" && isCacheAcc(e) {
+				ss = append(ss, i)
+			}
+		}
+		switch {
+		case len(ws) != 1:
+			note("Request reaches %d calls of WriteShipMessageWithPayload (want exactly one): order of remembering and writing not established", len(ws))
+		case req.ev[ws[0]].async:
+			note("Request writes to the connection in a goroutine: order of remembering and writing not established")
+		case len(ss) == 0:
+			note("Request never stores into the request cache")
+		default:
+			before, after = true, true
+			for _, i := range ss {
+				before = before && i < ws[0] && !req.ev[i].async
+				after = after && i > ws[0] && !req.ev[i].async
+			}
+			if before == after {
+				before, after = false, false
+				note("Request stores into the request cache both before and after the write (or in a goroutine)")
+			}
+		}
+		if len(ws) >= 1 && cacheLock != "" {
+			writeOutsideCacheLock = true
+			for _, i := range ws {
+				if has(req.ev[i].held, cacheLock) {
+					writeOutsideCacheLock = false
+					note("Request writes to the connection while it holds the cache lock")
+				}
+			}
+		} else if cacheLock == "" {
+			note("no cache lock identified: writeOutsideCacheLock not established")
+		}
+	}
+
+	// ---- the response path does not take the request mutex --------------------------------------------------
+	responseSkips := false
+	if in := traces["ProcessResponseForMsgCounterReference"]; in == nil {
+		note("method Sender.ProcessResponseForMsgCounterReference not found")
+	} else {
+		responseSkips = true
+		for _, e := range in.ev {
+			if !isLock(e) {
+				continue
+			}
+			if reqMu != "" && e.name == reqMu {
+				responseSkips = false
+				note("ProcessResponseForMsgCounterReference acquires the request mutex")
+			}
+			if reqMu == "" && e.name != cacheLock { // no request mutex identified in Request: the response path may take the cache lock only
+				responseSkips = false
+				note("ProcessResponseForMsgCounterReference acquires a mutex other than the cache lock (%s) and Request has no identifiable request mutex", e.name)
+			}
+		}
+	}
+
+	// ---- every exported sending method: one draw, one write, the draw first --------------------------------------
+	oneDraw, drawFirst := counterField != "", counterField != ""
 	senders := 0
-	for _, name := range names {
-		if !ast.IsExported(name) || !oneDraw {
+	for _, n := range entries {
+		if !ast.IsExported(n) {
 			continue
 		}
-		sends := count(name, sendMethod, map[string]bool{})
-		draws := count(name, counterMethod, map[string]bool{})
-		if sends > 0 {
+		in := traces[n]
+		ws := writesOf(in)
+		var ds []int
+		for i, e := range in.ev {
+			if isDraw(e) {
+				ds = append(ds, i)
+			}
+		}
+		if len(ws) > 0 {
 			senders++
 		}
-		if sends > 1 || draws != sends {
+		if len(ws) > 1 || len(ds) != len(ws) {
 			oneDraw = false
-			notes = append(notes, fmt.Sprintf("%s hands %d datagram(s) to the connection and draws %d counter(s)", name, sends, draws))
+			note("%s reaches %d write(s) to the connection and %d counter draw(s)", n, len(ws), len(ds))
+		} else if len(ws) == 1 && (!dominates(in.ev[ds[0]], in.ev[ws[0]]) || in.ev[ws[0]].async) {
+			oneDraw = false
+			note("%s: the counter draw is not made on every path that writes to the connection", n)
+		}
+		if len(ws) > 0 {
+			if len(ds) == 0 {
+				drawFirst = false
+				note("%s writes to the connection without a counter draw", n)
+			}
+			for _, d := range ds {
+				if d > ws[0] || in.ev[d].async {
+					drawFirst = false
+					note("%s draws a counter after the write to the connection", n)
+				}
+			}
 		}
 	}
-	if oneDraw && senders < 5 {
-		oneDraw = false
-		notes = append(notes, fmt.Sprintf("only %d exported Sender methods reach the send method", senders))
+	if senders < 5 {
+		oneDraw, drawFirst = false, false
+		note("only %d exported Sender methods reach a write to the connection (want at least 5)", senders)
+	}
+
+	// ---- Notify: the datagram is stored in the notify cache before it is written ------------------------------
+	notifyStoresBeforeWrite := false
+	notifyField := ""
+	if in := traces["Notify"]; in == nil {
+		note("method Sender.Notify not found")
+	} else {
+		ws := writesOf(in)
+		var ps []int
+		for i, e := range in.ev {
+			if e.kind == "fieldcall" && e.op == "Put" && lru[e.name] {
+				ps = append(ps, i)
+				notifyField = e.name
+			}
+		}
+		switch {
+		case len(ws) != 1 || in.ev[ws[0]].async:
+			note("Notify reaches %d synchronous write(s) to the connection (want exactly one)", len(ws))
+		case len(ps) == 0:
+			note("Notify never calls Put on a receiver field whose type mentions lrucache")
+		default:
+			notifyStoresBeforeWrite = true
+			dom := false
+			for _, i := range ps {
+				if i > ws[0] || in.ev[i].async {
+					notifyStoresBeforeWrite = false
+					note("Notify puts the datagram into the notify cache after the write to the connection")
+				}
+				dom = dom || dominates(in.ev[i], in.ev[ws[0]])
+			}
+			if !dom {
+				notifyStoresBeforeWrite = false
+				note("Notify does not put the datagram into the notify cache on every path that writes to the connection")
+			}
+		}
 	}
 
 	var b strings.Builder
-	b.WriteString("/-! GENERATED by go/cmd/translate (generator `sender`) from package spine (Sender) — do not edit. -/\n")
+	b.WriteString("/-! GENERATED by go/cmd/translate (generator `sender`) from package spine (Sender) — do not edit.\n")
+	b.WriteString("    Facts are computed by abstract interpretation of the Sender's exported methods with helpers of the package inlined (go/cmd/translate/absint.go). -/\n")
 	b.WriteString("namespace Spine.Generated.Sender\n\n")
 	fmt.Fprintf(&b, "/-- `len(<request cache>) > N` in the Sender's methods (request cache = the map field keyed by the message counter: %s) -/\ndef reqCacheLimit : Nat := %d\n\n", cacheField, limit)
 	fmt.Fprintf(&b, "/-- capacity passed to lrucache.New in NewSender -/\ndef notifyCacheCap : Nat := %d\n\n", cap)
-	fmt.Fprintf(&b, "/-- Request locks a mutex field first and unlocks it by defer: lookup, send and insert are one critical section -/\ndef requestOneRegion : Bool := %v\n\n", requestOneRegion)
-	fmt.Fprintf(&b, "/-- the only access of the Sender's methods to the counter field (%s) is one atomic add (in %s) -/\ndef counterAtomic : Bool := %v\n\n", counterField, counterMethod, counterAtomic)
-	fmt.Fprintf(&b, "/-- every exported Sender method draws exactly one counter (%s) per datagram it hands to the connection (%s), at most one datagram per call; call sites counted through the Sender's own methods -/\ndef oneDrawPerSend : Bool := %v\n\n", counterMethod, sendMethod, oneDraw)
+	w := func(doc, name string, v bool) {
+		fmt.Fprintf(&b, "/-- %s -/\ndef %s : Bool := %v\n\n", doc, name, v)
+	}
+	w(fmt.Sprintf("running Request (helpers inlined, deferred calls at the end of their frame): the request mutex (%s) is write-locked first, unconditionally and exactly once; every access to the request cache, the counter draw and the write to the connection happen while it is held; it is released exactly once on the main path and on every exit path", reqMu), "requestOneRegion", requestOneRegion)
+	w(fmt.Sprintf("in the trace of Request the store into the request cache (%s) precedes the single write to the connection (the repaired member of the model family)", cacheField), "requestRemembersBeforeWrite", before)
+	w(fmt.Sprintf("in the trace of Request the store into the request cache (%s) follows the single write to the connection: a response can be processed between write and insert", cacheField), "requestRemembersAfterWrite", after)
+	w(fmt.Sprintf("ProcessResponseForMsgCounterReference (helpers inlined) never acquires the request mutex (%s): it can run between the write and the insert of a Request", reqMu), "responsePathSkipsRequestMutex", responseSkips)
+	w(fmt.Sprintf("every load / range / index / len, store and delete of the request cache (%s) in any method of the Sender happens while the cache lock (%s) is held, stores and deletes under its write lock", cacheField, cacheLock), "cacheAccessUnderCacheLock", cacheAccessUnderCacheLock)
+	w(fmt.Sprintf("the write to the connection in Request happens while the cache lock (%s) is not held: the response path can run while the write is in progress", cacheLock), "writeOutsideCacheLock", writeOutsideCacheLock)
+	w(fmt.Sprintf("the counter field (%s) is the operand of an atomic add and the Sender's methods access it in no other way", counterField), "counterAtomic", counterAtomic)
+	w(fmt.Sprintf("every exported Sender method that reaches a write to the connection reaches exactly one, with exactly one draw of the counter (%s) in its trace, made on every path that writes; a method that does not write does not draw; at least 5 exported methods write", counterField), "oneDrawPerSend", oneDraw)
+	w("in every exported Sender method that writes to the connection every counter draw precedes the write", "drawPrecedesWrite", drawFirst)
+	w(fmt.Sprintf("in Notify the Put into the notify cache (%s, a field whose type mentions lrucache) precedes the single write to the connection and is made on every path that writes", notifyField), "notifyStoresBeforeWrite", notifyStoresBeforeWrite)
 	for _, n := range notes {
 		fmt.Fprintf(&b, "-- note: %s\n", n)
 	}
@@ -409,5 +694,6 @@ func genSender(outDir string) (string, error) {
 	if err := writeFile(outDir, "Sender.lean", b.String()); err != nil {
 		return "", err
 	}
-	return fmt.Sprintf("limit=%d cap=%d requestOneRegion=%v counterAtomic=%v oneDrawPerSend=%v", limit, cap, requestOneRegion, counterAtomic, oneDraw), nil
+	return fmt.Sprintf("limit=%d cap=%d requestOneRegion=%v remembersBeforeWrite=%v remembersAfterWrite=%v responsePathSkipsRequestMutex=%v cacheAccessUnderCacheLock=%v writeOutsideCacheLock=%v counterAtomic=%v oneDrawPerSend=%v drawPrecedesWrite=%v notifyStoresBeforeWrite=%v notes=%d",
+		limit, cap, requestOneRegion, before, after, responseSkips, cacheAccessUnderCacheLock, writeOutsideCacheLock, counterAtomic, oneDraw, drawFirst, notifyStoresBeforeWrite, len(notes)), nil
 }
